@@ -173,6 +173,27 @@ func elemAccesses(v ssa.Value, add func(ssa.Instruction, string), depth int) {
 				} else {
 					add(x, "elem-read")
 				}
+			default:
+				// handed to a helper of this repository: what the helper does with that parameter
+				// (append into it, store through it) happens to the guarded backing array
+				if callee := StaticFn(x); callee != nil && callee.Blocks != nil && callee.Pkg != nil && strings.HasPrefix(callee.Pkg.Pkg.Path(), modPath) {
+					for j, a := range x.Call.Args {
+						if a != v || j >= len(callee.Params) {
+							continue
+						}
+						writes := false
+						elemAccesses(callee.Params[j], func(_ ssa.Instruction, kind string) {
+							if kind == "elem-write" {
+								writes = true
+							}
+						}, depth+1)
+						if writes {
+							add(x, "elem-write")
+						} else {
+							add(x, "elem-read")
+						}
+					}
+				}
 			}
 		}
 	}
